@@ -285,6 +285,15 @@ def check_hier(spec):
     """spec: {"hier": hierarchy spec, "level": i, "vals_a": {field: expr spec},
               "vals_b": {...}, "hash_first": bool}"""
     res = Result()
+    seen_undecorated = False
+    has_dc = spec["hier"]["root"] != "Expression"
+    for lv in spec["hier"]["levels"]:
+        if lv["kind"] == "D" and seen_undecorated:
+            raise HarnessError("decorated below undecorated is not a supported shape")
+        if lv["kind"] == "B" and (lv["fields"] or not has_dc):
+            raise HarnessError("behaviour-only level needs a decorated ancestor, no fields")
+        seen_undecorated = seen_undecorated or lv["kind"] in ("L", "B")
+        has_dc = has_dc or lv["kind"] == "D"
     try:
         levels = usertypes.make_hierarchy(spec["hier"])
     except Exception as exc:
@@ -340,6 +349,8 @@ def check_hier(spec):
         if k2 == "D":
             dec_fields = list(f2)
     root_fields = list(usertypes.ROOTS[spec["hier"]["root"]][1])
+    if kind == "B":
+        pass  # handled below like a legacy class without fields of its own
     if kind == "D":
         _try_mutations(res, a, list(allf), "decorated-user-class")
         res.compared()
@@ -653,10 +664,14 @@ def hier_case(draw):
     levels = []
     used = set()
     for _ in range(depth):
-        kind = draw(st.sampled_from(("D", "D", "L")))
-        if levels and levels[-1]["kind"] == "L":
-            kind = "L"      # a decorated class below a legacy one is not a supported shape
-        nf = draw(st.integers(0, 2))
+        kind = draw(st.sampled_from(("D", "D", "L", "B")))
+        if levels and levels[-1]["kind"] in ("L", "B"):
+            # a decorated class below an undecorated one is not a supported shape
+            kind = draw(st.sampled_from(("L", "B")))
+        if kind == "B" and root == "Expression" and not any(
+                lv["kind"] == "D" for lv in levels):
+            kind = "L" if levels else "D"      # behaviour-only subclasses need a decorated ancestor
+        nf = 0 if kind == "B" else draw(st.integers(0, 2))
         flds = [f for f in draw(st.permutations(FIELD_POOL)) if f not in used][:nf]
         used.update(flds)
         levels.append({"kind": kind, "fields": flds, "mapper_method": None})
